@@ -137,9 +137,12 @@ def gen_spec(rng, size=None, features=None):
             nout = rng.choice([1, 1, 2, 3]) if 'multi' in feats else 1
             exts = ['.c', '.h', '.txt', '.dat']
             outs = []
+            # the outputs of one step may live in different directories of the build tree
+            spread = nout > 1 and 'subdirs' in feats and rng.random() < 0.5
             for k in range(nout):
                 ext = rng.choice(exts) if 'gensrc' in feats else rng.choice(['.txt', '.dat'])
-                outs.append('%sg%d_%d%s' % (sub, i, k, ext))
+                osub = rng.choice(['', 'od/', 'od/x/', 'gen/', 'inc/']) if spread else sub
+                outs.append('%sg%d_%d%s' % (osub, i, k, ext))
             cands = [['file', p] for p in data + srcs] + outputs_of({'step', 'copy', 'obj'})
             nd = {'id': i, 'kind': 'step', 'outs': outs,
                   'files': rng.sample(cands, rng.randint(0, min(2, len(cands)))),
